@@ -58,7 +58,8 @@ SIM_CFG = "Context_MC_thorough_sim.cfg"
 
 class CleanupBoom(Exception):
     def __init__(self, key):
-        Exception.__init__(self, "cleanup %s" % key)
+        # the text contains percent signs: error reporting must not use it as a format string
+        Exception.__init__(self, "cleanup %s failed at 100%% (%%s, %%d)" % key)
         self.key = key
 
 
@@ -211,6 +212,21 @@ def replay_history(world, ops):
             raise CleanupBoom(key(seq, 2, ident))
 
     @fixture
+    def nesting_fixture(context, ident, seq, raises):
+        # the SETUP part registers a cleanup of its own and uses another generator fixture
+        log.append(key(seq, 3, ident))
+        k = key(seq, 1, 97)
+        context.add_cleanup(cleanup_func(97, 0), k, k=k)
+        use_fixture(gen_fixture, context, 98, seq, 0)
+        yield ident
+        if not alive[0]:
+            world.stale_calls += 1
+            return
+        log.append(key(seq, 2, ident))
+        if raises:
+            raise CleanupBoom(key(seq, 2, ident))
+
+    @fixture
     def failing_fixture(context, seq):
         log.append(key(seq, 3, 99))
         raise SetupBoom("setup fails")
@@ -313,6 +329,8 @@ def replay_history(world, ops):
                         use_fixture(plain_fixture, ctx, x, seq)
                     elif z == 3:
                         use_fixture(failing_fixture, ctx, seq)
+                    elif z == 5:
+                        use_fixture(nesting_fixture, ctx, x, seq, y)
                     else:
                         use_composite_fixture_with(ctx, [fixture_call_params(gen_fixture, x, seq, y),
                                                          fixture_call_params(failing_fixture, seq)])
@@ -392,7 +410,7 @@ def pretty(ops, upto=None):
             parts.append("add_cleanup(c%d%s%s%s)" % (x, "!" if y % 2 else "", ",args" if y // 2 else "",
                                                      ",layer=%s" % LAYERS[min(z, 5)] if z else ""))
         elif c == 11:
-            parts.append("use_fixture(%s%s)" % (["", "generator", "plain", "failing_setup", "composite"][z],
+            parts.append("use_fixture(%s%s)" % (["", "generator", "plain", "failing_setup", "composite", "generator_with_registering_setup"][min(z, 5)],
                                                "!" if y else ""))
         elif c == 13:
             parts.append("execute_steps(%s)" % ("ok" if x else "fails"))
@@ -453,8 +471,8 @@ def random_history(rnd, length):
             layer = rnd.choice([0, 0, 0, 1, 2, 3, 4, 5])
             ops.append([10, ident, raises + 2 * rnd.choice([0, 0, 1]), layer])
         elif r < 0.91:
-            kind = rnd.choice([1, 1, 2, 3, 4])
-            if kind in (1, 4):
+            kind = rnd.choice([1, 1, 2, 3, 4, 5])
+            if kind in (1, 4, 5):
                 ident = 10 + len(ops) % 80          # a fresh callable each time
                 ops.append([11, ident, 1 if rnd.random() < 0.3 else 0, kind])
             else:
